@@ -1560,7 +1560,17 @@ fn c15(spec: &RunSpec) -> ! {
                 sim::flush();
                 sh.expect_exit = st;
                 sh.expect_set = 1;
-                deliver(s, k as u64);
+                if hh % 2 == 0 {
+                    // the shutdown must end the whole process, not just the thread the signal
+                    // arrived on: let it arrive on a second thread while this one waits
+                    let kk = k as u64;
+                    let _ = std::thread::spawn(move || {
+                        deliver(s, kk);
+                    })
+                    .join();
+                } else {
+                    deliver(s, k as u64);
+                }
                 // still alive: the shutdown did not happen
                 sh.expect_set = 0;
                 sim::violation("C15", "shutdown-did-not-terminate", &format!("a conditional shutdown whose condition was true at that moment did not terminate the process (expected exit status {}); history: {}", st, desc));
